@@ -222,7 +222,8 @@ func genConstants(util, logp, scp, wmpt, cur *pkgSrc) string {
 	named(we, "branchNodeLength", "branchNodeLength", "core/util/wmpt")
 	// len(keys) > N in path.go
 	var ths []int64
-	if f := wmpt.files["path.go"]; f != nil {
+	for _, fn := range wmpt.names { // every file of the package: the constant does not depend on the file name
+		f := wmpt.files[fn]
 		ast.Inspect(f, func(n ast.Node) bool {
 			be, ok := n.(*ast.BinaryExpr)
 			if !ok || be.Op != token.GTR {
@@ -248,7 +249,7 @@ func genConstants(util, logp, scp, wmpt, cur *pkgSrc) string {
 	if okTh {
 		th = ths[0]
 	}
-	emit("pathParallelThreshold", "core/util/wmpt/path.go: the N of `len(keys) > N`", th, okTh)
+	emit("pathParallelThreshold", "core/util/wmpt: the N of `len(keys) > N`", th, okTh)
 
 	named(newConstEnv(cur), "ZCNExponent", "zcnExponent", "core/currency")
 
